@@ -58,6 +58,7 @@ type Exec struct {
 	heapTrace       map[string]bool
 	specOrigArgs    []Val
 	invFacts        map[*Term]bool // path-condition entries that are assumed loop invariants
+	boundCtr        int
 	trusted         map[string]bool
 	ord             map[string]int
 	frames          []*frame
